@@ -964,7 +964,9 @@ package framework
 //@   note nopanic off: task / node / ssn.ClusterInfo are dereferenced for log lines and look-ups; their non-nil-ness is the caller's matter (common.allocateTask is `nopanic off` too)
 //@   requires ssn != nil
 //@   modifies *
-//@   ensures [onlyPruneHopeless] result == (allocatable && old(predicatesOK(ssn, task, ssn.ClusterInfo.PodGroupInfos[task.Job], node)))
+//@   # the converse ("filters only prune hopeless cases"): nothing but the resource gate (the body's local `allocatable` = verdict of
+//@   # isTaskAllocatableOnNode) and the registered predicates can reject a node; a `lemma` because it names a local of the body
+//@   lemma [onlyPruneHopeless] result == (allocatable && old(predicatesOK(ssn, task, ssn.ClusterInfo.PodGroupInfos[task.Job], node)))
 //@   ensures [allPredicates] result ==> old(predicatesOK(ssn, task, ssn.ClusterInfo.PodGroupInfos[task.Job], node))
 //@   ensures [cpuMemGate] result ==> old(fitsRelOrIdleCpuMem(node, task))
 //@   ensures [wholeGpuGate] result && old(wholeGpuReq(task)) ==> old(fitsRelOrIdleGpus(node, task))
